@@ -17,6 +17,7 @@ for t in bkld:diff bkli:intersect bklr:required; do
   {
     echo "package $tool"
     echo
+    if [ $tool = bkld ]; then echo 'import "github.com/gopatchy/bkl"'; echo; fi
     echo "// fatal mirrors cmd/$tool/main.go:fatal but panics instead of exiting, so the"
     echo "// in-process harness observes the failure."
     echo "func fatal(err error) { panic(err) }"
@@ -24,7 +25,9 @@ for t in bkld:diff bkli:intersect bklr:required; do
     echo "var _ = fatal"
     echo
     case $tool in
-      bkld) echo "func Diff(dst, src any) (any, error) { return diff(dst, src) }" ;;
+      bkld) echo "func Diff(dst, src any) (any, error) { return diff(dst, src) }"
+            echo
+            echo "func DiffDoc(dst, src *bkl.Document) (any, error) { return diffDoc(dst, src) }" ;;
       bkli) echo "func Intersect(a, b any) (any, error) { return intersect(a, b) }" ;;
       bklr) echo "func Required(obj any) (any, error) { return required(obj) }" ;;
     esac
